@@ -461,8 +461,12 @@ where
 
             Submission::Tombstone { tombstone, stats } => self.tombstone_infos.push(TombstoneInfo { tombstone, stats }),
             Submission::Reinsertion { reinsertion } => {
-                // Skip reinsertion if the entry is not in the indexer.
-                if self.indexer.get(reinsertion.hash).is_some() {
+                // Skip reinsertion if the entry is not in the indexer (anymore), or was superseded meanwhile.
+                if self
+                    .indexer
+                    .get(reinsertion.hash)
+                    .is_some_and(|addr| addr.sequence == reinsertion.sequence)
+                {
                     report(self.buffer.as_mut().unwrap().push_slice(
                         &reinsertion.slice[..reinsertion.len],
                         reinsertion.hash,
